@@ -22,7 +22,7 @@ MANIFEST = dict(
          "scenarios, binary built with -race) do NOT prove anything: they validate the table (every report with a samber/ro frame must fall on rows of a location the table already rejects) and search "
          "for a failing input; the Lean driver only echoes this kind. Known findings (each reproduced under -race): connectableObservableImpl.subject / .subscription outside s.mu, "
          "ShareWithConfig.sourceSubscription read after Unlock, BufferWithCount.buffer and GroupBy.groups reset by the teardown, ObserveOn/SubscribeOn and ToChannel teardown closing the hand-off channel "
-         "under a sending callback, MergeMapI index and OnErrorResumeNextWith slice shared between subscriptions (also C12).",
+         "under a sending callback. (MergeMapI's shared index and OnErrorResumeNextWith's rewritten slice were found as well, confirmed under -race, and have been repaired in the repository since.)",
     technique="Lean 4 lockset theorem (invariant by induction over schedules) + kernel-decided per-pair predicate over the access table regenerated from source by a lexical lock-region / emission-context analysis + race-detector runs validating the table",
     ref='5/C13')
 
@@ -32,8 +32,8 @@ MANIFEST = dict(
 # to rows. It decides nothing: the verdict on the table is the Lean `decide`.
 
 KNOWN_RACY = ["connectableObservableImpl.subject", "connectableObservableImpl.subscription", "ShareWithConfig.sourceSubscription",
-              "BufferWithCount.buffer", "GroupByIWithContext.groups", "detachOn.ch", "ToChannel.ch",
-              "MergeMapIWithContext.i", "OnErrorResumeNextWith.finally"]
+              "BufferWithCount.buffer", "GroupByIWithContext.groups", "detachOn.ch", "ToChannel.ch"]
+# repaired in the repository meanwhile (commits 11bf135, fd0e106) and no longer excused: MergeMapIWithContext.i, OnErrorResumeNextWith.finally
 
 
 def locksets():
@@ -179,7 +179,12 @@ def run_case_lines(ctx, cases):
                 log += open(os.path.join(ctx.work, fn), errors='replace').read()
         res = open(gp).read().strip() if os.path.exists(gp) else ''
         sc = re.search(r'\bsc=(\S+)', case)
-        d = dict(case=case, scenario=sc.group(1) if sc else '?', res=res, rc=rc, reports=parse_reports(log + '\n' + err, R.REPO), crash=None)
+        d = dict(case=case, scenario=sc.group(1) if sc else '?', res=res, rc=rc, reports=parse_reports(log + '\n' + err, R.REPO), crash=None, stats=None)
+        m = re.search(r'^race-scenario \S+ rounds=(\d+) completed=(\d+) panics=(\d+) first=(.*)$', err, flags=re.M)
+        if m:
+            d['stats'] = dict(rounds=int(m.group(1)), completed=int(m.group(2)), panics=int(m.group(3)), first=m.group(4))
+        if 'harness-timeout' in res:
+            d['hang'] = err[err.find('a round did not come back'):][:6000]
         if rc not in (0, 66):
             d['crash'] = parse_crash(err, R.REPO) or ('child exited with ' + str(rc), [], err[-3000:])
         return d
@@ -188,15 +193,21 @@ def run_case_lines(ctx, cases):
 
 
 def locs_of_sites(tbl, sites):
-    """locations of the table that have rows on both access sites (same file)"""
+    """locations of the table that have rows on both access sites. A site matches a row on its line,
+    or an atomic row of the function that starts on that line (the race detector attributes inlined
+    sync/atomic wrappers to the first line of the enclosing function)."""
     out = []
     want = [s for s in sites if s]
     if not want:
         return out
     for l in tbl['Locs']:
-        lines = {f"{l['File']}:{r['Line']}" for r in l['Rows']}
-        # rows reached through a helper live in the helper's file = same package directory; File is the owner's
-        if all(s in lines or s.split(':')[1] in {str(r['Line']) for r in l['Rows']} and os.path.dirname(s) == os.path.dirname(l['File']) for s in want):
+        d = os.path.dirname(l['File'])
+        def hit(s_):
+            f, ln = s_.rsplit(':', 1)
+            if os.path.dirname(f) != d:
+                return False
+            return any(str(r['Line']) == ln or (r['Prot'] == 'atomic' and str(r.get('FnLine')) == ln) for r in l['Rows'])
+        if all(hit(s_) for s_ in want):
             out.append(l['Name'])
     return out
 
@@ -233,18 +244,22 @@ def check(ctx):
         R.run_driver(cp, lp)
         lean = open(lp).read().splitlines() if os.path.exists(lp) else []
     reproduced = {}
+    panicked = []
+    seen_global = set()
     consequences = {}
     timeouts = []
     unknown = 0
     for i, d in enumerate(results):
-        rounds = re.search(r'\brounds=(\d+)', d['case'])
-        ctx.evaluations += int(rounds.group(1)) if rounds else 1
+        ctx.evaluations += d['stats']['completed'] if d['stats'] else 0
+        if d['stats'] and d['stats']['panics']:
+            panicked.append(f"{d['scenario']}: {d['stats']['panics']} round(s) ended by a panic of the library, first: {d['stats']['first']}")
         ctx.distinct.add(d['scenario'])
         echo = lean[i] if results and i < len(lean) else ''
         if d['crash'] is None and d['res'].split()[2:] == ['ok'] and echo.split()[2:] == ['ok']:
             ctx.traces_validated += 1
         elif d['crash'] is None and 'harness-timeout' in d['res']:
             timeouts.append(d['scenario'])
+            open(os.path.join(ctx.work, f"hang.{d['scenario']}.txt"), 'w').write(d.get('hang', ''))
         items = [(s, b) for s, b in d['reports']]
         if d['crash'] is not None:
             head, csites, ctext = d['crash']
@@ -276,15 +291,23 @@ def check(ctx):
                 ctx.violation(f"C13: report without a frame of the repository under check in scenario {d['scenario']} (a race inside the harness, or a crash)",
                               f"# harness-level report (no samber/ro frame on the access stacks)\n{d['case']}\n# reproduce: GORACE=halt_on_error=0 go/bin/harness-race replay -cases <this file> -res /dev/null\n\n{block}\n", no_input=True)
                 continue
-            key = tuple(sorted(s or '-' for s in sites))
-            if key in seen_unknown:
-                continue
-            seen_unknown.add(key)
+            key = tuple(sorted(cands)) or tuple(sorted(s or '-' for s in sites))
             unknown += 1
-            where = f"rows of {cands} (which the table accepts: the lexical analysis misses an ordering or a lock is not what it seems)" if cands else "no row of the Locksets table (a location the extractor does not cover)"
+            if key in seen_global or len(seen_global) >= 8:
+                continue
+            seen_global.add(key)
+            rejected = [c for c in cands if c in failing]
+            if rejected:
+                where = f"rows of {rejected}, which the regenerated table rejects as well (see the table violation below)"
+            elif cands:
+                where = f"rows of {cands}, which the table accepts: the lexical analysis misses a concurrency or a lock is not what it seems"
+            else:
+                where = "no row of the Locksets table (a location the extractor does not cover)"
             ctx.violation(f"C13: data race reported by the race detector in scenario {d['scenario']} at {' / '.join(s or '?' for s in sites)}: {where}",
                           f"# data race on the real code, scenario {d['scenario']}, access sites {sites}\n{d['case']}\n"
                           f"# reproduce: GORACE=halt_on_error=0 go/bin/harness-race replay -cases <this file> -res /dev/null   (or ./check C13 --replay <this file>)\n\n{block}\n")
+    if panicked:
+        ctx.notes.append('rounds ended by a panic (C06/C07 territory; the race verdict of the rounds that ran stands): ' + '; '.join(panicked))
     if timeouts:
         ctx.notes.append('harness-timeout (reported, neither a pass nor a violation): ' + ', '.join(timeouts))
     # known findings: the table still rejects the location (re-derived on every run); reproduction is reported alongside
